@@ -221,29 +221,29 @@ pub struct HistSpec {
 
 pub fn hist_spec(prop: &str) -> Option<HistSpec> {
     Some(match prop {
-        "C01" => HistSpec { prop: "C01", profile: p_c01(), nontrivial: nt_c01, quick: 600, thorough: 20_000,
+        "C01" => HistSpec { prop: "C01", profile: p_c01(), nontrivial: nt_c01, quick: 4000, thorough: 200_000,
             rule: "history of 30-80 generated ops (accounting profile); non-trivial = >=1 successful stake, >=1 successful reward or batch submission, >=1 error-ack/timeout and >=1 successful recovery; distinct by hash of the concrete executed op sequence" },
-        "C02" => HistSpec { prop: "C02", profile: p_c02(), nontrivial: nt_c02, quick: 600, thorough: 20_000,
+        "C02" => HistSpec { prop: "C02", profile: p_c02(), nontrivial: nt_c02, quick: 4000, thorough: 200_000,
             rule: "history of 40-90 ops; non-trivial = >=2 batches received, one of them with >=2 requesters, >=1 short or generous delivery, >=1 withdrawal, and a fee accrual or an outstanding refund; distinct by executed-op hash" },
-        "C03" => HistSpec { prop: "C03", profile: p_c03(), nontrivial: nt_c03, quick: 600, thorough: 20_000,
+        "C03" => HistSpec { prop: "C03", profile: p_c03(), nontrivial: nt_c03, quick: 4000, thorough: 200_000,
             rule: "history of 25-70 stake-heavy ops; non-trivial = a successful stake to a native-chain recipient at an exchange rate != 1, or a successful submission of a batch with >=2 requesters; distinct by executed-op hash" },
-        "C04" => HistSpec { prop: "C04", profile: p_c04(), nontrivial: nt_c04, quick: 300, thorough: 20_000,
+        "C04" => HistSpec { prop: "C04", profile: p_c04(), nontrivial: nt_c04, quick: 2000, thorough: 100_000,
             rule: "(a) pure cases (N, L, amount) over the full 128-bit space, boundary-biased and constructed on rounding boundaries; non-trivial = division remainder != 0 or constructed boundary case; distinct by value hash. (b) stake-heavy histories; non-trivial = a stake/submission at rate != 1 plus a stake on a threshold (minimum, expected_mint_amount, zero-mint guard); distinct by executed-op hash" },
-        "C09" => HistSpec { prop: "C09", profile: p_c09(), nontrivial: nt_c09, quick: 300, thorough: 20_000,
+        "C09" => HistSpec { prop: "C09", profile: p_c09(), nontrivial: nt_c09, quick: 2000, thorough: 100_000,
             rule: "(a) derivation cases: channel ids over u64, native senders under generated prefixes with 20/32-byte payloads, protocol prefixes, plus an adversarially close second pair; every case is non-trivial, distinct by value hash. (b) histories with impostor deliveries and UpdateConfig changes of channel/staker/collector; non-trivial = an impostor attempt and an authentic accepted delivery in one history" },
-        "C17" => HistSpec { prop: "C17", profile: p_c17(), nontrivial: nt_c17, quick: 400, thorough: 20_000,
+        "C17" => HistSpec { prop: "C17", profile: p_c17(), nontrivial: nt_c17, quick: 2000, thorough: 100_000,
             rule: "(a) synthetic stores: up to 40 batches / 30 packets with ids drawn from small ranges, gaps, powers of two and u64 extremes, all statuses, and up to 20 (start_after, limit>=1, status) walks each over Batches and IbcQueue plus BatchesByIds lists with repeats and unknown ids; non-trivial = a walk of >=3 pages whose status filter skips elements inside a page, or >=3 pages of the packet queue, or an id list mixing existing and unknown ids; distinct by case hash. (b) query-heavy histories in which UnstakeRequests of every user is compared with the model after every step; non-trivial = >=3 query ops, >=2 submitted batches, a repeated unstake and a withdrawal" },
-        "C05" => HistSpec { prop: "C05", profile: p_c05(), nontrivial: nt_c05, quick: 800, thorough: 30_000,
+        "C05" => HistSpec { prop: "C05", profile: p_c05(), nontrivial: nt_c05, quick: 4000, thorough: 200_000,
             rule: "history of 40-90 unstake/submit/deliver/withdraw-heavy ops; non-trivial = a batch with >=3 requesters delivered with received != expected, >=1 repeated unstake by one account in one batch, >=2 successful withdrawals; distinct by executed-op hash" },
-        "C06" => HistSpec { prop: "C06", profile: p_c06(), nontrivial: nt_c06, quick: 800, thorough: 30_000,
+        "C06" => HistSpec { prop: "C06", profile: p_c06(), nontrivial: nt_c06, quick: 4000, thorough: 200_000,
             rule: "history of 40-90 ops with short periods; non-trivial = a SubmitBatch or operator delivery attempted exactly at, or one second before, its deadline; distinct by executed-op hash" },
-        "C07" => HistSpec { prop: "C07", profile: p_c07(), nontrivial: nt_c07, quick: 800, thorough: 30_000,
+        "C07" => HistSpec { prop: "C07", profile: p_c07(), nontrivial: nt_c07, quick: 4000, thorough: 200_000,
             rule: "history of 40-90 IBC-heavy ops; non-trivial = (a recovery merging >=2 packets after >=1 non-success and >=1 success outcome) or a forced recovery or an injected submission failure or a stray callback; distinct by executed-op hash" },
-        "C11" => HistSpec { prop: "C11", profile: p_c11(), nontrivial: nt_c11, quick: 1000, thorough: 50_000,
+        "C11" => HistSpec { prop: "C11", profile: p_c11(), nontrivial: nt_c11, quick: 6000, thorough: 300_000,
             rule: "history of 20-50 reward-heavy ops with fee rates 0..100000 and beyond; non-trivial = a fee division with non-zero remainder, or a FeeWithdraw within one unit of the accrued balance, or a treasury toggle with a successful reward; distinct by executed-op hash" },
-        "C15" => HistSpec { prop: "C15", profile: p_c15(), nontrivial: nt_c15, quick: 400, thorough: 20_000,
+        "C15" => HistSpec { prop: "C15", profile: p_c15(), nontrivial: nt_c15, quick: 2500, thorough: 150_000,
             rule: "history run with and without an oracle; non-trivial = a successful stake plus a later rate-changing transaction (reward, submission or re-basing resume); distinct by executed-op hash" },
-        "C16" => HistSpec { prop: "C16", profile: p_c16(), nontrivial: nt_c16, quick: 1500, thorough: 50_000,
+        "C16" => HistSpec { prop: "C16", profile: p_c16(), nontrivial: nt_c16, quick: 6000, thorough: 300_000,
             rule: "history of 30-90 ops with hostile callers, huge fee rates, extreme selectors, queries; non-trivial = at least one call returned an error (guarded unwrap sites exercised); distinct by executed-op hash" },
         _ => return None,
     })
@@ -258,14 +258,26 @@ pub fn check_history(prop: &str, thorough: bool, seed: u64) -> Option<Report> {
     rep.absorb(out);
     match prop {
         "C04" => {
-            rep.absorb(crate::props_pure::check_c04_pure(if thorough { 20_000_000 } else { 400_000 }, seed));
+            rep.absorb(crate::props_pure::check_c04_pure(if thorough { 50_000_000 } else { 1_000_000 }, seed));
             rep.assumptions.push("pure cases whose reference result exceeds 128 bits are skipped (the property says 'representable')".into());
         }
+        "C15" => {
+            rep.absorb(crate::props_extra::run_c15_diff(if thorough { 150_000 } else { 2500 }, seed));
+            rep.assumptions.push("differential part: the same history with and without an oracle address must give identical outcomes, storage (except the address) and ledgers, and post nothing".into());
+        }
+        "C05" => {
+            rep.absorb(crate::props_extra::run_c05_perm(if thorough { 100_000 } else { 2000 }, seed, &spec.profile));
+            rep.assumptions.push("metamorphic part: from the state reached by a history, every received batch with >=2 open requests is withdrawn in three different orders on copies; per-user payouts must coincide".into());
+        }
+        "C16" => {
+            rep.absorb(crate::props_extra::run_hostile(if thorough { 200_000 } else { 3000 }, seed, &spec.profile));
+            rep.assumptions.push("hostile part: 5-40 single calls (reply with unknown ids / undecodable data, stray sudo, every execute variant with extreme arguments and fund sets from 10 kinds of sender, all queries with extreme cursors, migrate on arbitrary stored versions, byte-mutated JSON into every message type) on copies of a reached state; resumed totals kept inside the stated rate domain".into());
+        }
         "C17" => {
-            rep.absorb(crate::props_c17::check_c17_pages(if thorough { 100_000 } else { 4_000 }, seed));
+            rep.absorb(crate::props_c17::check_c17_pages(if thorough { 1_000_000 } else { 20_000 }, seed));
         }
         "C09" => {
-            rep.absorb(crate::props_pure::check_c09_pure(if thorough { 5_000_000 } else { 100_000 }, seed));
+            rep.absorb(crate::props_pure::check_c09_pure(if thorough { 10_000_000 } else { 300_000 }, seed));
             rep.assumptions.push("reference derivation = own SHA-256 + own bech32 encoder, validated against FIPS 180-4 and BIP-173 vectors at start-up; injectivity beyond the string level rests on SHA-256".into());
         }
         _ => {}
